@@ -1737,6 +1737,36 @@ func ruleTab11(c *Ctx, r *Reporter) {
 				}
 			}
 			walk(start)
+			// the index definitions travel with the namespace: the loop over its Indexes is passed before the store
+			noIdx := false
+			seen2 := map[*ssa.BasicBlock]bool{}
+			var walk2 func(b *ssa.BasicBlock)
+			walk2 = func(b *ssa.BasicBlock) {
+				if noIdx || seen2[b] {
+					return
+				}
+				seen2[b] = true
+				for _, in := range b.Instrs {
+					if rg, ok := in.(*ssa.Range); ok {
+						if u, ok := rg.X.(*ssa.UnOp); ok {
+							if fa, ok := u.X.(*ssa.FieldAddr); ok && structFieldOf(fa).Name() == "Indexes" {
+								return
+							}
+						}
+					}
+					if isTableStore(in) {
+						noIdx = true
+						return
+					}
+				}
+				for _, s := range b.Succs {
+					if lp.body[s] && s != hdr {
+						walk2(s)
+					}
+				}
+			}
+			walk2(start)
+			r.check(!noIdx, name+":indexes travel with the namespace", c.pos(lp.next.Pos()), "every path to the store of a namespace passes the loop over its Indexes", "a namespace can be stored without its indexes having been copied (a shortcut for some namespaces, e.g. empty ones): its index definitions - including unique and _id_ - are gone after a reload")
 			r.check(!skipped, key, c.pos(lp.next.Pos()), "every iteration that continues the loop has stored its namespace", "an iteration can continue with the next namespace without storing this one: the skipped namespace (e.g. an empty collection with its unique and TTL indexes) is missing after a reload")
 		}
 	}
@@ -2704,4 +2734,144 @@ func ruleLock11(c *Ctx, r *Reporter) {
 	})
 	r.ok("Engine.Commit:exclusive until published:summary", c.pos(fn.Pos()), fmt.Sprintf("%d inline and %d deferred token release sites examined", n, defers))
 	r.guard(n+defers, 1, "token release sites in Engine.Commit")
+}
+
+// ---- ERR-1: no status result is dropped ----------------------------------------------------
+
+func init() {
+	register(&Rule{ID: "ERR-1", Doc: "no outcome is ignored: every error result, and every bool result of a repository function (the `ok` of Set.Add/Replace/Remove, Index.Add/Remove/Build, Semaphore.Acquire, ...), is used by its caller, except at the listed clean-up sites (closing or removing something on a path that already failed or is shutting down); a dropped result turns a rejected or failed step into a silent success", Run: ruleErr1})
+}
+
+// statusBool: repository functions whose bool result says whether the step took effect (not a mode or a property of the value).
+var statusBool = map[string]bool{"Add": true, "Remove": true, "Replace": true, "Build": true, "Acquire": true}
+
+// droppable: "caller function -> callee" pairs whose dropped result is deliberate, with the reason.
+var err1Allowed = map[string]string{
+	"dbkit.AtomicWriteFile -> File.Close":      "deferred close of the directory handle after its fsync was checked",
+	"dbkit.AtomicWriteFile$1 -> File.Close":    "clean-up of the temporary file on a path that already failed",
+	"dbkit.AtomicWriteFile$1 -> os.Remove":     "clean-up of the temporary file on a path that already failed",
+	"bsonkit.NewSet -> Set.Add":                "a document listed twice is kept once: the duplicate is ignored by design",
+	"lungo.Transaction.Clean -> Set.Remove":    "removes List[0] of the cloned oplog, which is always present (LOG-3 checks the operand)",
+	"lungo.Stream.ResumeToken -> bson.Marshal": "marshalling a document produced by the library itself",
+}
+
+// err1AnyCaller: clean-up calls whose error carries no information the caller could act on, wherever they are made.
+var err1AnyCaller = map[string]string{
+	"Session.AbortTransaction": "aborting is idempotent; used to make sure a transaction is gone after the work is done or failed",
+	"UploadStream.Abort":       "best-effort removal of a failed upload; the original error is what the caller reports",
+	"ICursor.Close":            "closing a read cursor",
+	"Tomb.Wait":                "returns the kill reason, which is nil by construction",
+}
+
+func ruleErr1(c *Ctx, r *Reporter) {
+	n, dropped := 0, 0
+	used := map[string]bool{}
+	for _, fn := range c.repoFuncs() {
+		allInstrs(fn, func(in ssa.Instruction) {
+			var cc *ssa.CallCommon
+			var val ssa.Value
+			deferred := false
+			switch x := in.(type) {
+			case *ssa.Call:
+				cc, val = &x.Call, x
+			case *ssa.Defer:
+				cc, deferred = &x.Call, true
+			case *ssa.Go:
+				return
+			default:
+				return
+			}
+			if _, ok := cc.Value.(*ssa.Builtin); ok {
+				return
+			}
+			sig := cc.Signature()
+			if sig == nil || sig.Results().Len() == 0 {
+				return
+			}
+			f := calleeObj(cc)
+			repoCallee := f != nil && f.Pkg() != nil && strings.HasPrefix(f.Pkg().Path(), pkgLungo)
+			// which result components matter
+			var idxs []int
+			for i := 0; i < sig.Results().Len(); i++ {
+				t := sig.Results().At(i).Type()
+				if isErrorType(t) {
+					idxs = append(idxs, i)
+				} else if b, ok := t.Underlying().(*types.Basic); ok && b.Kind() == types.Bool && repoCallee && statusBool[f.Name()] {
+					idxs = append(idxs, i)
+				}
+			}
+			if len(idxs) == 0 {
+				return
+			}
+			n++
+			isUsed := func(i int) bool {
+				if deferred || val == nil {
+					return false
+				}
+				refs := val.Referrers()
+				if refs == nil {
+					return false
+				}
+				if sig.Results().Len() == 1 {
+					for _, ref := range *refs {
+						if _, isDbg := ref.(*ssa.DebugRef); !isDbg {
+							return true
+						}
+					}
+					return false
+				}
+				for _, ref := range *refs {
+					if ex, ok := ref.(*ssa.Extract); ok && ex.Index == i {
+						if rr := ex.Referrers(); rr != nil && len(*rr) > 0 {
+							return true
+						}
+					}
+				}
+				return false
+			}
+			for _, i := range idxs {
+				if isUsed(i) {
+					continue
+				}
+				dropped++
+				callee := "?"
+				if f != nil {
+					callee = fullShort(f)
+					if f.Pkg() != nil && !strings.HasPrefix(f.Pkg().Path(), pkgLungo) {
+						callee = f.Pkg().Name() + "." + f.Name()
+						if recv := f.Type().(*types.Signature).Recv(); recv != nil {
+							if nm := derefNamed(recv.Type()); nm != nil {
+								callee = nm.Obj().Name() + "." + f.Name()
+							}
+						}
+					}
+				} else if cc.IsInvoke() {
+					callee = cc.Method.Name()
+					if nm := derefNamed(cc.Value.Type()); nm != nil {
+						callee = nm.Obj().Name() + "." + cc.Method.Name()
+					}
+				}
+				caller := strings.TrimPrefix(strings.TrimPrefix(funcName(fn), "(*"), "(")
+				caller = strings.Replace(caller, ")", "", 1)
+				pair := caller + " -> " + callee
+				key := "dropped result: " + pair
+				if reason, ok := err1AnyCaller[callee]; ok {
+					r.ok(key, c.pos(in.Pos()), "best-effort clean-up call: "+reason)
+					continue
+				}
+				if reason, ok := err1Allowed[pair]; ok {
+					used[pair] = true
+					r.ok(key, c.pos(in.Pos()), "listed clean-up site: "+reason)
+					continue
+				}
+				kind := "error"
+				if !isErrorType(sig.Results().At(i).Type()) {
+					kind = "bool"
+				}
+				r.bad(key, c.pos(in.Pos()), fmt.Sprintf("the %s result of %s is not used: a failed or rejected step is treated as success", kind, callee))
+			}
+		})
+	}
+	r.ok("summary", "-", fmt.Sprintf("%d calls with an error / status result examined, %d results dropped (all listed)", n, dropped))
+	r.guard(n, 300, "calls with an error or status result")
 }
